@@ -19,19 +19,23 @@ Theorem name_equiv_refuted : ~ name_equiv.
 Proof. intro H. specialize (H []). vm_compute in H. discriminate. Qed.
 Theorem name_bytes_equiv_refuted : ~ name_bytes_equiv.
 Proof. intro H. specialize (H []). vm_compute in H. discriminate. Qed.
-(* U+FFFD (EF BF BD) is a legal character, but with mustUTF8 the topic predicates still take
-   utf8.RuneError for an encoding error *)
+(* U+0000 is accepted by the topic predicates when they are called directly (the decoder calls
+   ValidUTF8 first, which refuses it) *)
 Theorem filter_equiv_refuted : ~ filter_equiv.
-Proof. intro H. specialize (H [239; 191; 189]). vm_compute in H. discriminate. Qed.
+Proof. intro H. specialize (H [97; 0]). vm_compute in H. discriminate. Qed.
 Theorem v5_filter_equiv_refuted : ~ v5_filter_equiv.
-Proof. intro H. specialize (H [239; 191; 189]). vm_compute in H. discriminate. Qed.
+Proof. intro H. specialize (H [97; 0]). vm_compute in H. discriminate. Qed.
 (* U+0000 is accepted inside a topic name by ValidTopicName(true, ..) *)
 Theorem name_accepts_nul : valid_topic_name_impl true [97; 0] = Ok true /\ spec_topic_name [97; 0] = false.
 Proof. split; vm_compute; reflexivity. Qed.
-(* repaired: "+a", "+a/#", "$share/g/+a" are refused *)
+(* repaired: "+a", "+a/#", "$share/g/+a" are refused; U+FFFD is accepted in names, filters, share names *)
 Lemma plus_prefix_refused :
   valid_topic_filter_impl true [43; 97] = Ok false /\ valid_topic_filter_impl false [43; 97; 47; 35] = Ok false
   /\ valid_v5_topic_impl [36; 115; 104; 97; 114; 101; 47; 103; 47; 43; 97] = Ok false.
+Proof. repeat split; vm_compute; reflexivity. Qed.
+Lemma fffd_topics_accepted :
+  valid_topic_name_impl true [239; 191; 189] = Ok true /\ valid_topic_filter_impl true [239; 191; 189; 47; 35] = Ok true
+  /\ valid_v5_topic_impl [36; 115; 104; 97; 114; 101; 47; 239; 191; 189; 47; 239; 191; 189] = Ok true.
 Proof. repeat split; vm_compute; reflexivity. Qed.
 
 (* ---------------------------------------------------------------- runes and bytes *)
@@ -122,34 +126,31 @@ Qed.
 
 (* ---------------------------------------------------------------- ValidTopicName(true, s) on strings that passed ValidUTF8 *)
 (* the decoder always calls readUTF8String(true, ..) before ValidTopicName(true, ..): on such
-   strings, if they do not contain U+FFFD, the RuneError test never fires *)
-Lemma name_loop_must : forall fuel p, valid_utf8_loop fuel p = Ok true -> has_fffd p = false ->
+   strings the invalid-encoding test (RuneError with size 1) never fires *)
+Lemma name_loop_must : forall fuel p, valid_utf8_loop fuel p = Ok true ->
   valid_topic_name_loop fuel true p = valid_topic_name_loop fuel false p.
 Proof.
-  induction fuel; intros p H Hf; [reflexivity|]. cbn [valid_utf8_loop valid_topic_name_loop] in *.
+  induction fuel; intros p H; [reflexivity|]. cbn [valid_utf8_loop valid_topic_name_loop] in *.
   destruct p as [|p0 t] eqn:Ep; [reflexivity|]. rewrite <- Ep in *.
   assert (Hp : p <> []) by (subst; discriminate).
   destruct (decode_rune_size p Hp) as [H1 _].
-  pose proof (rune_error_size1 p Hf) as Hre.
   destruct (decode_rune p) as [ru size]. cbn [fst snd] in *.
   destruct (ru <=? 31); [discriminate|]. destruct ((127 <=? ru) && (ru <=? 159)); [discriminate|].
-  destruct (N.eqb_spec ru RUNE_ERROR) as [Er|Er].
-  { rewrite (Hre Er Hp) in H. cbn in H. discriminate. }
-  cbn [andb] in *. destruct (negb (valid_rune ru)); [discriminate|].
+  cbn [andb] in *. destruct ((ru =? RUNE_ERROR) && (size <=? 1)); [discriminate|].
+  destruct (negb (valid_rune ru)); [discriminate|].
   destruct ((size =? 1) && ((p0 =? PLUS) || (p0 =? HASH))); [reflexivity|].
   replace (size =? 0) with false in H by lia.
   destruct (slice_from size p) as [p'| | |] eqn:Es; cbn [bind] in *; try reflexivity.
-  apply IHfuel; [assumption|]. unfold slice_from in Es. destruct (shorter p size); [discriminate|].
-  inversion Es. now apply has_fffd_dropN.
+  now apply IHfuel.
 Qed.
 
-(* ValidTopicName(true, s) on every non-empty string the decoder passes to it, U+FFFD apart,
-   gives the verdict of the specification *)
+(* ValidTopicName(true, s) on every non-empty string the decoder passes to it gives the
+   verdict of the specification *)
 Theorem name_decoder_partial : forall s,
-  valid_utf8_impl s = Ok true -> kf_t_fffd s = false -> kf_t_name_empty s = false ->
+  valid_utf8_impl s = Ok true -> kf_t_name_empty s = false ->
   valid_topic_name_impl true s = Ok (spec_topic_name s).
 Proof.
-  intros s Hu Hf He. unfold valid_topic_name_impl. rewrite name_loop_must by assumption.
+  intros s Hu He. unfold valid_topic_name_impl. rewrite name_loop_must by assumption.
   fold (valid_topic_name_impl false s). rewrite name_bytes_partial by assumption.
   unfold spec_topic_name. rewrite valid_utf8_impl_spec in Hu.
   destruct (spec_utf8 s); [reflexivity|]. cbn in Hu. discriminate.
